@@ -74,6 +74,24 @@ def main():
     a = ap.parse_args()
     seed = int(os.environ.get('VERIF_SEED', '0') or 0)
     pid = a.pid.upper()
+    if pid == 'C05' and not a.replay and os.environ.get('TXV_C05_CHILD') != '1':
+        # C05 feeds hostile bytes to the implementation in this very process: a decoder that brings the interpreter
+        # down (a signal, not an exception) must end as a verdict too.  The check runs in a child; the parent only waits.
+        sys.stdout.flush()
+        cpid = os.fork()
+        if cpid:
+            _, status = os.waitpid(cpid, 0)
+            if os.WIFSIGNALED(status):
+                from . import core
+                chk = core.Check(pid, a.tier, seed)
+                chk.states = chk.transitions = 1
+                chk.violation('decoding hostile input killed the interpreter (signal %d)' % os.WTERMSIG(status),
+                              dict(kind='crash', module='c05', signal=os.WTERMSIG(status)))
+                rc = chk.finish(rule='aborted: the process decoding the inputs died')
+                sys.stdout.flush()
+                os._exit(rc)
+            os._exit(os.WEXITSTATUS(status))
+        os.environ['TXV_C05_CHILD'] = '1'
     if not a.replay:
         watchdog(pid, overall_s=3 * 3600 if a.tier == 'quick' else 12 * 3600)
     try:
